@@ -27,6 +27,7 @@ static inline int myth_spin_trylock_body(myth_spinlock_t *lock);
 static inline int myth_spin_lock_body(myth_spinlock_t *lock) {
   int failed = 0;
   while (!myth_spin_trylock_body(lock)) {
+    MYTH_VERIF_SPIN(MYTH_VP_SPINLOCK, lock);
     failed++;
   }
   return failed;
